@@ -12,7 +12,8 @@
         token is of a kind covered by the Coq round-trip theorem) and, for outputs up to the size limit,
         `relex_same` (L: the model tokenizer on the rendered text gives back the same kinds, values and comments);
      4. prints the model tokenizer's tokens of the output (for the lexer correspondence).
-   stdout: `R=.|S=.|P=.|L=.|ops=<n>|unsupported=<n>|<detail>|<model tokens of the output or ->`
+   stdout: `R=.|S=.|P=.|L=.|ops=<n>|unsupported=<n>|<detail>|<model tokens of the output or ->|<Coq term or empty>`
+   (with C12_COQ_TERMS set, small cases carry the Coq term `(ops, output, R, S, L)` for the in-Coq cross-check)
    argv[1] (optional): size limit in characters for step L/4 (default 60000). *)
 open Util
 open BinNums
@@ -136,6 +137,35 @@ let parse_token (s : string) : token =
       t_trail = (if trail = "-" then None else Some (parse_comment trail)) }
   | _ -> failwith ("bad token " ^ s)
 
+(* ---------------- Coq terms (for the in-Coq cross-check of a sample) ---------------- *)
+let coq_ns l = "[" ^ Stdlib.String.concat "; " (Stdlib.List.map (fun b -> string_of_int (int_of_n b)) l) ^ "]"
+let coq_kind = function
+  | KKw n -> "(KKw " ^ coq_ns n ^ ")"
+  | k -> "K" ^ kind_name k
+let coq_value = function
+  | VNone -> "VNone"
+  | VIdent t -> "(VIdent " ^ coq_ns t ^ ")"
+  | VString t -> "(VString " ^ coq_ns t ^ ")"
+  | VBitString (t, len, base, v) ->
+    Printf.sprintf "(VBitString %s %s %d %s)" (coq_ns t) (match len with Some n -> "(Some " ^ dec_of_n n ^ ")" | None -> "None")
+      (int_of_n base) (coq_ns v)
+  | VAbsInt (t, n) -> Printf.sprintf "(VAbsInt %s %s)" (coq_ns t) (dec_of_n n)
+  | VAbsReal t -> "(VAbsReal " ^ coq_ns t ^ ")"
+  | VChar c -> Printf.sprintf "(VChar %d)" (int_of_n c)
+  | VText t -> "(VText " ^ coq_ns t ^ ")"
+let coq_pos (l, c) = Printf.sprintf "(%d, %d)" (int_of_n l) (int_of_n c)
+let coq_comment c =
+  Printf.sprintf "{| c_val := %s; c_s := %s; c_e := %s; c_multi := %b |}" (coq_ns c.c_val) (coq_pos c.c_s) (coq_pos c.c_e) c.c_multi
+let coq_token t =
+  Printf.sprintf "{| t_kind := %s; t_val := %s; t_s := %s; t_e := %s; t_lead := [%s]; t_trail := %s |}"
+    (coq_kind t.t_kind) (coq_value t.t_val) (coq_pos t.t_s) (coq_pos t.t_e)
+    (Stdlib.String.concat "; " (Stdlib.List.map coq_comment t.t_lead))
+    (match t.t_trail with Some c -> "(Some " ^ coq_comment c ^ ")" | None -> "None")
+let coq_op = function
+  | OTok t -> "OTok " ^ coq_token t
+  | OSep SWs -> "OSep SWs" | OSep SBreak -> "OSep SBreak" | OSep SInc -> "OSep SInc" | OSep SDec -> "OSep SDec"
+  | OSep (SBreaks n) -> "OSep (SBreaks " ^ dec_of_n n ^ ")"
+
 (* ---------------- the matcher ---------------- *)
 exception Mismatch of string
 
@@ -250,12 +280,18 @@ let () =
         let toks = if toks_s = "" then [] else Stdlib.List.map parse_token (Stdlib.String.split_on_char ';' toks_s) in
         let out_i = Array.of_list (ints_of_string out_s) in
         let out_n = Stdlib.List.map n_of_int (Array.to_list out_i) in
+        let t0 = Sys.time () in
+        let tick name = if Sys.getenv_opt "C12_PROF" <> None then Printf.eprintf "%s %.2f\n%!" name (Sys.time () -. t0) in
+        tick "parsed";
         let ops = reconstruct toks out_i in
+        tick "reconstruct";
         let r = match render_ops ops with
           | Some txt -> Stdlib.List.length txt = Array.length out_i && Stdlib.List.for_all2 (fun a b -> int_of_n a = b) txt (Array.to_list out_i)
           | None -> false in
+        tick "render";
         let ids_ok = Stdlib.List.length (ops_tokens ops) = Stdlib.List.length toks in
         let s = ops_sep_ok ops in
+        tick "sep_ok";
         let unsupported = Stdlib.List.length (Stdlib.List.filter (fun t -> not (supported_kind t)) toks) in
         let small = Array.length out_i <= limit in
         let l = if small then (if relex_same toks out_n then "1" else "0") else "-" in
@@ -265,9 +301,14 @@ let () =
              | Done (ts, _) -> Stdlib.String.concat ";" (Stdlib.List.map token ts)
              | Aborted _ -> "ABORT")
           else "-" in
-        Printf.printf "R=%d|S=%d|P=%d|L=%s|ops=%d|unsupported=%d||%s\n" (if r && ids_ok then 1 else 0) (if s then 1 else 0)
-          (if unsupported = 0 then 1 else 0) l (Stdlib.List.length ops) unsupported mt
+        let term =
+          if Sys.getenv_opt "C12_COQ_TERMS" <> None && Array.length out_i <= 400 && l <> "-" then
+            Printf.sprintf "([%s], %s, %b, %b, %b)" (Stdlib.String.concat "; " (Stdlib.List.map coq_op ops)) (coq_ns out_n)
+              (r && ids_ok) s (l = "1")
+          else "" in
+        Printf.printf "R=%d|S=%d|P=%d|L=%s|ops=%d|unsupported=%d||%s|%s\n" (if r && ids_ok then 1 else 0) (if s then 1 else 0)
+          (if unsupported = 0 then 1 else 0) l (Stdlib.List.length ops) unsupported mt term
       with
-      | Mismatch m -> Printf.printf "R=0|S=-|P=-|L=-|ops=0|unsupported=0|%s|-\n" m
-      | Failure m -> Printf.printf "R=0|S=-|P=-|L=-|ops=0|unsupported=0|runner failure: %s|-\n" m
+      | Mismatch m -> Printf.printf "R=0|S=-|P=-|L=-|ops=0|unsupported=0|%s|-|\n" m
+      | Failure m -> Printf.printf "R=0|S=-|P=-|L=-|ops=0|unsupported=0|runner failure: %s|-|\n" m
     end)
